@@ -646,7 +646,21 @@ class Array(metaclass=MetaArray):
                 len(self) == 0 and ll == 0
             )
         if compatible:
-            self.__class__._to_buffer(self._buffer, self._offset, value)
+            cls = self.__class__
+            info = None
+            if not cls._is_static_type and not isinstance(value, cls):
+                # dynamically sized items: the new items must fit in the
+                # size fixed at creation, which is kept
+                info = cls._inspect_args(value)
+                size = self._get_size()
+                if info.size > size:
+                    raise ValueError(
+                        f"{value} needs {info.size} bytes, only {size} available"
+                    )
+                info.size = size
+            cls._to_buffer(self._buffer, self._offset, value, info)
+            if info is not None:
+                self._offsets = info.offsets
         else:
             if is_integer(value):
                 raise ValueError(f"Cannot specify new length {ll} for {self}")
